@@ -509,7 +509,10 @@ def weave_fn(w, item_id, text, spec, log):
     """spec: dict with requires/ensures/loops/proofs/ret/decreases/trusted"""
     props = spec.get('props', [])
     # proofs first (anchors are literal texts in the original body)
-    for p in spec.get('proofs', []) or []:
+    plist = list(spec.get('proofs', []) or [])
+    starts = [p for p in plist if p.get('at') == 'start']
+    plist = [p for p in plist if p.get('at') != 'start'] + list(reversed(starts))
+    for p in plist:
         if p.get('at') == 'start':
             toks0 = R.lex(text)
             _kw, _bo, _a, _w = fn_signature_parts(text, toks0)
@@ -544,7 +547,10 @@ def weave_fn(w, item_id, text, spec, log):
             raise Undecided('%s: proof anchor %r is ambiguous (%d matches)' % (item_id, anchor, len(idxs)))
         at = idxs[nth - 1] + (len(anchor) if 'after' in p else 0)
         c = Clause(p.get('label', 'proof'), '', props, 'proof')
-        block = ' ' + w.mark(item_id, c) + ' proof { ' + p['text'].strip() + ' } '
+        if p.get('ghost'):
+            block = ' ' + w.mark(item_id, c) + ' ' + p['text'].strip() + ' '
+        else:
+            block = ' ' + w.mark(item_id, c) + ' proof { ' + p['text'].strip() + ' } '
         text = text[:at] + block + text[at:]
     toks = R.lex(text)
     # loops (from last to first so offsets stay valid)
